@@ -5,11 +5,11 @@ EXTENDS AsyncCall, TLC, Json
 VARIABLE St
 \* n = the number of ASYNC import calls of the body: 2 (f, f) or 3 (f, f, echo); 0 when the imports are bound synchronously
 Init == \/ \E n \in {2, 3}, aexp \in BOOLEAN : St = S0(n, TRUE, aexp)
-        \/ St = S0(0, FALSE, TRUE)
+        \/ \E lent \in {{}, {5}, {5, 6}} : St = [S0(0, FALSE, TRUE) EXCEPT !.lent = lent]
 Next == \/ \E e \in Candidates(St) : LET nx == Apply(St, e) IN nx.bad = "" /\ St' = nx
         \/ (St.ended /\ UNCHANGED St)
-Inv == OneOutcome(St) /\ DoneMeansReported(St) /\ StartedMeansRead(St) /\ NeverReadIfCancelledBeforeStart(St) /\ EndedClean(St)
-Emit == St.ended => PrintT(<<"VEC", ToJson([n |-> St.n, aimp |-> St.aimp, aexp |-> St.aexp, modes |-> St.modes, cancelAt |-> St.cancelAt,
+Inv == OneOutcome(St) /\ DoneMeansReported(St) /\ StartedMeansRead(St) /\ NeverReadIfCancelledBeforeStart(St) /\ EndedClean(St) /\ NoBorrowOutlivesTheCall(St)
+Emit == (St.ended /\ St.n > 0 /\ St.yields = 0) => PrintT(<<"VEC", ToJson([n |-> St.n, aimp |-> St.aimp, aexp |-> St.aexp, modes |-> St.modes, cancelAt |-> St.cancelAt,
                                             waits |-> St.waits, ret |-> St.ret, canc |-> St.canc])>>)
 \* self-check: the guards reject what C08 forbids
 W == S0(2, TRUE, TRUE)
@@ -20,6 +20,10 @@ ASSUME Apply(AfterCall, [ev |-> "subtask.drop", h |-> 1]).bad # ""              
 ASSUME Apply(AfterCall, [ev |-> "task.return", errors |-> 0]).bad # ""                 \* returned before its calls finished
 ASSUME Apply(AfterCall, [ev |-> "answer", code |-> "wait", set |-> 1]).bad # ""        \* waits without having joined
 ASSUME Apply(AfterCall, [ev |-> "answer", code |-> "exit", set |-> 0]).bad # ""        \* exit without outcome
+ASSUME LET b0 == [S0(0, FALSE, TRUE) EXCEPT !.lent = {5}]
+       IN Apply(b0, [ev |-> "task.return", errors |-> 0]).bad # ""                       \* returns while still holding a borrow
+          /\ Apply(Apply(b0, [ev |-> "borrow.drop", h |-> 5]), [ev |-> "task.return", errors |-> 0]).bad = ""
+          /\ Apply(Apply(b0, [ev |-> "borrow.drop", h |-> 5]), [ev |-> "borrow.drop", h |-> 5]).bad # ""   \* dropped twice
 ASSUME LET a == Apply(AfterCall, [ev |-> "set.new", set |-> 1])
            b == Apply(a, [ev |-> "join", h |-> 1, set |-> 1])
            c == Apply(b, [ev |-> "answer", code |-> "wait", set |-> 1])
